@@ -86,7 +86,7 @@ impl Check for C09 {
              "the matrix of dimension types is complete for the listed types; inside a cell the data are sampled".into()]
     }
     fn required_classes(&self, _t: Tier) -> Vec<&'static str> {
-        vec!["zero-length-query-axis", "zero-length-trailing-axis", "combined-rank>6", "strat:Linear", "strat:Spline", "strat:Bilinear", "batch-with-bad-element"]
+        vec!["query:nonstandard-layout", "zero-length-query-axis", "zero-length-trailing-axis", "combined-rank>6", "strat:Linear", "strat:Spline", "strat:Bilinear", "batch-with-bad-element"]
     }
     fn extra_coverage(&self) -> serde_json::Value {
         json!({"matrix_cells": cells()})
@@ -163,14 +163,20 @@ fn run1<T: Flt>(src: &mut Src, obs: &mut Obs, qd: QDim, qrank: usize, dd: DDim, 
     } else {
         StratSel::Linear
     };
-    let c = Case1 { n, axis_class: class, x: x.clone(), trailing: trailing.clone(), lanes, data, dd, strat };
+    let lay = crate::layout::pick_lay(src);
+    let xlay = crate::layout::pick_lay(src);
+    let c = Case1 { n, axis_class: class, x: x.clone(), trailing: trailing.clone(), lanes, data, dd, strat, lay, xlay };
     let interp = match catch(|| c.build::<T>(false)) {
         Ok(r) => r?,
         Err(p) => fail!("panic/build", "build panicked for data shape {:?}: {p}", c.shape()),
     };
     let qlen = product(&qshape);
     let qs = distinct_queries::<T>(src, &x, qlen);
-    let qa = ArrayD::from_shape_vec(IxDyn(&qshape), qs.clone()).unwrap();
+    let qlay = crate::layout::pick_lay(src);
+    if qlay.0 != crate::layout::Layout::C {
+        obs.class("query:nonstandard-layout");
+    }
+    let qa = crate::layout::realise(ArrayD::from_shape_vec(IxDyn(&qshape), qs.clone()).unwrap(), qlay, T::of(-4.0e4));
     let mut want = qshape.clone();
     want.extend_from_slice(&trailing);
     if want.len() > 6 {
@@ -272,7 +278,9 @@ fn run2<T: Flt>(src: &mut Src, obs: &mut Obs, qd: QDim, qrank: usize, dd: DDim, 
     let y = axis::<T>(src, ny, cy, Some(6));
     let vc = val_class(src);
     let data = values::<T>(src, nx * ny * lanes, vc, 0);
-    let g = Grid { nx, ny, x: x.clone(), y: y.clone(), cx, cy, trailing: trailing.clone(), lanes, data, dd };
+    let lay = crate::layout::pick_lay(src);
+    let (xlay, ylay) = (crate::layout::pick_lay(src), crate::layout::pick_lay(src));
+    let g = Grid { nx, ny, x: x.clone(), y: y.clone(), cx, cy, trailing: trailing.clone(), lanes, data, dd, lay, xlay, ylay };
     let interp = match catch(|| g.build::<T>(false)) {
         Ok(r) => r?,
         Err(p) => fail!("panic/build", "build panicked for data shape {:?}: {p}", g.shape()),
@@ -284,8 +292,12 @@ fn run2<T: Flt>(src: &mut Src, obs: &mut Obs, qd: QDim, qrank: usize, dd: DDim, 
     if qlen > 1 && src.bool() {
         ys.reverse();
     }
-    let xa = ArrayD::from_shape_vec(IxDyn(&qshape), xs.clone()).unwrap();
-    let ya = ArrayD::from_shape_vec(IxDyn(&qshape), ys.clone()).unwrap();
+    let (qlx, qly) = (crate::layout::pick_lay(src), crate::layout::pick_lay(src));
+    if qlx.0 != crate::layout::Layout::C || qly.0 != crate::layout::Layout::C {
+        obs.class("query:nonstandard-layout");
+    }
+    let xa = crate::layout::realise(ArrayD::from_shape_vec(IxDyn(&qshape), xs.clone()).unwrap(), qlx, T::of(-4.0e4));
+    let ya = crate::layout::realise(ArrayD::from_shape_vec(IxDyn(&qshape), ys.clone()).unwrap(), qly, T::of(-4.0e4));
     let mut want = qshape.clone();
     want.extend_from_slice(&trailing);
     if want.len() > 6 {
